@@ -99,3 +99,11 @@ add('C06', 'property-based testing: validity predicate on every returned circuit
     'and CNF/verdict equisatisfiability; completeness by enumerating the same canonical search space independently.',
     TRUST + ' The SAT solver is a z3-backed stand-in for pysat (models re-checked, UNSAT cross-checked by the enumeration); '
     'search spaces above the bound are counted as inconclusive.')
+
+add('C04', 'property-based differential testing with a generated environment (admissible cut families, hash seeds, injected solver time-outs)',
+    'Generated supported-gate circuits x basis x parameters x policy-generated admissible cut families x per-worker '
+    'PYTHONHASHSEED x forked / in-process solver x deterministic time-out injection; result compared with the argument by '
+    'reference truth table, interface, non-trivial gate count and well-formedness; FailedValidationError and (on circuits '
+    'without equivalent gates) every internal error are violations.',
+    TRUST + ' mockturtle cut enumeration and the pysat solver are stand-ins that lie inside the domain the property '
+    'quantifies over (any admissible cut family, any sound and complete solver); CaDiCaL / mockturtle specific behaviour is not exercised.')
